@@ -34,13 +34,31 @@ def hasHugeChunk (s : Bytes) : Bool :=
         | none => go t v false
   go s 0 true
 
-/-- the response a strict reader sees at the front of `s` (an interim `100 Continue` skipped),
+/-- the interim responses in front of the final one skipped (strict reader) -/
+def skipInterim : Nat → Bytes → Option (Spec.Resp.Msg × Bytes)
+  | 0, _ => none
+  | fuel + 1, s => do
+    let (m, rest) ← Spec.Resp.decodeOne false s
+    if 100 ≤ m.status && m.status < 200 && m.status != 101 then skipInterim fuel rest else pure (m, rest)
+
+/-- `s` begins with interim responses other than ONE `100 Continue`: hertz's `ReadHeaders` takes the first head that is
+not that one `100` for the final response (known finding `interim-1xx-taken-as-final`) -/
+def hardInterim (s : Bytes) : Bool :=
+  match Spec.Resp.decodeOne false s with
+  | some (m, rest) =>
+    if m.status == 100 then
+      (match Spec.Resp.decodeOne false rest with
+       | some (m2, _) => 100 ≤ m2.status && m2.status < 200 && m2.status != 101
+       | none => false)
+    else 100 < m.status && m.status < 200 && m.status != 101
+  | none => false
+
+/-- the response a strict reader sees at the front of `s` (interim 1xx responses skipped),
 `none` when `s` is not a well-formed response there -/
 def specResponse (e : End) (s : Bytes) : Option (Nat × List (Bytes × Bytes) × Bytes) := do
   if hasLongHexLine s then none
-  let (m0, rest0) ← Spec.Resp.decodeOne false s
-  let (m, rest) ← if m0.status == 100 then Spec.Resp.decodeOne false rest0 else pure (m0, rest0)
-  if m.status == 100 then none
+  -- RFC 9110 §15.2: any number of interim 1xx responses (101 aside) may precede the final one
+  let (m, rest) ← skipInterim (s.length + 1) s
   -- status-code = 3DIGIT (the strict line reader also accepts fewer digits at the end of the line)
   if m.status < 100 then none
   -- a conforming server sends token field names and Content-Length values that fit an int
@@ -379,6 +397,7 @@ def seqHandle (flags : String) (maxBody n : Nat) (rest impl : List String) : Opt
       else if o == .badPool && i.res == ["err:badpool"] then (true, "pooled connection closed by the peer, request not repeatable")
       else specCheck (isHead || wanted') e maxBody s.resp (if i.res.headD "" == "ok" then i.res ++ ["0"] else i.res)
     let spec' := spec && rr.spec && sok
+    let cls' := if !sok && hardInterim s.resp && cls'.isEmpty then "interim-1xx-taken-as-final" else cls'
     let note' := if !note.isEmpty then note else if !rr.spec then "request: " ++ rr.specNote else if !sok then "response: " ++ snote else ""
     let t := (s.reuse.take 1).toString ++ (if o.isOk then "k" else (outcomeTokens o).headD "?") ++ (if prevFailed then "!" else "") ++
              (if st.idle.isSome && st'.dials == st.dials then "r" else "d")
@@ -406,12 +425,13 @@ def handle : Handler
     if impl == ["PANIC"] && hasHugeChunk s then
       return { out := impl, spec := false, cls := "huge-chunk-size-alloc", specNote := "reader panicked allocating a peer-declared chunk size", tag := "respread:hugechunk" }
     match readResponseSkip skip (flags.contains 'n') maxBody.toNat! e s with
-    | .error x => pure { out := [errTok x], spec := sok, specNote := snote, tag := "respread:" ++ errTok x ++ (if endK == "stall" then "S" else "E") }
+    | .error x => pure { out := [errTok x], spec := sok, specNote := snote, cls := if !sok && hardInterim s then "interim-1xx-taken-as-final" else "",
+                         tag := "respread:" ++ errTok x ++ (if endK == "stall" then "S" else "E") }
     | .ok r =>
       let hd := r.head
       pure { out := respTokens r ++ [toString r.rest.length],
-             spec := sok, specNote := snote,
-             tag := (if snote.startsWith "status" then "wf:" else "") ++ (if skip then "head:" else "") ++ "respread:ok:" ++ toString (if hd.cl < 0 then hd.cl else 0) ++ sizeClass r.body.length ++ boolTok hd.connClose ++
+             spec := sok, specNote := snote, cls := if !sok && hardInterim s then "interim-1xx-taken-as-final" else "",
+             tag := (if hardInterim s then "interim:" else "") ++ (if snote.startsWith "status" then "wf:" else "") ++ (if skip then "head:" else "") ++ "respread:ok:" ++ toString (if hd.cl < 0 then hd.cl else 0) ++ sizeClass r.body.length ++ boolTok hd.connClose ++
                     boolTok (!r.trailers.isEmpty) ++ boolTok (mustSkipCL hd.status) ++ sizeClass hd.h.length }
   | "reqwrite" :: proxy :: script, impl => reqWriteHandle (expectedTarget (proxy == "1") script) script impl
   | "c11seq" :: flags :: maxBody :: _frag :: n :: rest, impl => seqHandle flags maxBody.toNat! n.toNat! rest impl
